@@ -7,7 +7,7 @@ import z3
 from pyvc import ops
 from pyvc.values import Ext, NoOp, PyRaise, Unsupported, VClass, VDict, VList, VObj, stub
 
-from .api_common import CollectionsStub, ModuleStub
+from .api_common import CollectionsStub, ModuleStub, itertools_module
 
 from .casadi_facts import casadi_facts
 
@@ -324,6 +324,12 @@ def chain_module_functions():
 def casadi_module():
     m = ModuleStub("casadi", {k_: v_ for k_, v_ in OPS.items() if k_ != "OP_OTHER"})
     m.attrs["if_else"] = stub(if_else)
+    # ca.depends_on(e, v) asks whether e's VALUE depends on v (Jacobian sparsity).  An expression graph can mention a symbol its value
+    # does not depend on (vertcat(a1, a2, a3)[1:3] mentions a1), so for the question "may a symbol be left unsubstituted" the answer
+    # of depends_on is no evidence: it is an arbitrary Boolean here
+    m.attrs["veccat"] = stub(lambda eng, *a: VecT(a))
+    m.attrs["vertcat"] = stub(lambda eng, *a: VecT(a))
+    m.attrs["depends_on"] = stub(lambda eng, e, v: eng.fresh_bool("depends_on"))
     mx = VClass("MX")
     mx.constructor = lambda eng, c, a, k: a[0] if isinstance(a[0], E) else const(_val(a[0]))
     mx.attrs["sym"] = stub(lambda eng, name, *shape: sym(name))
@@ -338,7 +344,7 @@ def install(eng, extra=None):
         cas.attrs.update(extra)
     eng.ext_modules.update({"casadi": cas, "numpy": ModuleStub("numpy", {"nan": float("nan"), "inf": float("inf")}),
                             "logging": ModuleStub("logging", {"getLogger": stub(lambda eng, *a: NoOp()), "DEBUG": 10}),
-                            "itertools": ModuleStub("itertools", {"chain": stub(lambda eng, *a: VList([x for s in a for x in eng.iterate(s)]))}),
+                            "itertools": itertools_module(),
                             "re": ModuleStub("re", {}), "sys": ModuleStub("sys", {"maxsize": 2 ** 63 - 1}),
                             "collections": CollectionsStub(), "typing": typing})
     eng.call_contracts.clear()
